@@ -488,6 +488,9 @@ func (w *Worker) apply(st *Stim) {
 		part := ""
 		if st.Op == "answerhead" {
 			part = "head"
+			if strings.HasPrefix(st.Text, "cut:") {
+				w.Cl.HeadCut, _ = strconv.Atoi(st.Text[4:])
+			}
 		} else if st.Op == "answerrest" {
 			part = "rest"
 		}
